@@ -50,7 +50,7 @@ def run(ctx):
     chk.rule('B6', 'no unbounded recursion: every call-graph cycle reachable from the interposers is a listed recursion '
                    'whose argument changes on every call, or is cut by a re-entrancy guard', floor=1)
     chk.rule('B7', 'stack use does not depend on configuration or input: no alloca, no variable-length array sized by a '
-                   'run-time value, fixed automatic arrays below 64 KiB per frame', floor=20)
+                   'run-time value, fixed automatic arrays below 64 KiB per frame', floor=10)
     chk.explanation = (
         'Per-call-site discipline over everything reachable from execv/execve (registries expanded): flags of the '
         'socket/send calls are constant-folded; the blocking/signalling deny-list is checked on the resolved call '
